@@ -120,7 +120,7 @@ static void pred_c01(const Case &c) {
   if (npc == rank && ss > 0) VF_CHECK(fabsl(sum - 100) <= 100 * (10 * t3 + 1e-9L) + 64 * (n + p) * EPS * cond * 100, "all %d components taken but explained variance sums to %.12Lg", npc, sum);
 
   // (4) residual matrix: E0 - T P', orthogonal to every loading
-  if (scaling >= 0) {
+  {
     matrix *rm; initMatrix(&rm);
     GetResidualMatrix(mx, m, (size_t)npc, rm);
     VF_CHECK((int)rm->row == n && (int)rm->col == p, "GetResidualMatrix shape %s", dims(rm).c_str());
